@@ -652,5 +652,49 @@ def r09_default_charset(ctx):
     ctx.borrow(c17.r17_2, 'R09.8')
 
 
-RULES = [('R09.8', r09_default_charset), ('R09-vlq', r09_vlq), ('R09.7', r09_codec), ('R09-registry', r09_registry), ('R09.3', r09_3), ('R09.1', r09_1), ('R09-tables', r09_tables), ('R09.2', r09_2),
+def r09_after_refusal(ctx):
+    """The domains are enforced on every message, whatever happened before in the process: after a decode that was refused (a key
+    signature that does not exist, a payload cut short), after a constructor call that was refused, and after any number of good
+    decodes, an out-of-domain value given to the constructor or assigned is refused as it is on a fresh import - the checks do
+    not hang on module state that one way out of a call forgets to restore."""
+    from ..absint import AbsRaise
+    from ..fold import ClassRef
+    ai = smf.make_interp(ctx)
+    cls = ctx.p.cls(META, 'MetaMessage')
+    bmm = ctx.fn(ctx.p.func(META, 'build_meta_message'))
+    w = ctx.where(bmm)
+    before = {
+        'a refused key signature (FF 59 02 08 00)': lambda: ai.call_function(bmm, [0x59, AList([8, 0], 'list'), 0], {}),
+        'a channel prefix cut short (FF 20 00)': lambda: ai.call_function(bmm, [0x20, AList([], 'list'), 0], {}),
+        'a refused constructor call (tempo=-1)': lambda: ai.apply(ClassRef(cls), ['set_tempo'], {'tempo': -1}, None),
+        'a good decode (set_tempo)': lambda: ai.call_function(bmm, [0x51, AList([1, 2, 3], 'list'), 0], {}),
+        'nothing': lambda: None,
+    }
+    probes = [('set_tempo', {'tempo': 2 ** 24}), ('set_tempo', {'tempo': -1}), ('channel_prefix', {'channel': 256}), ('sequence_number', {'number': 65536}),
+              ('time_signature', {'denominator': 3}), ('key_signature', {'key': 'H'}), ('text', {'text': None})]
+    n = 0
+    for blabel, first in before.items():
+        for type_, kw in probes:
+            n += 1
+            marks = []
+
+            def thunk():
+                try:
+                    first()
+                    marks.append('returned')
+                except AbsRaise as e:
+                    marks.append(e.exc)
+                return ai.apply(ClassRef(cls), [type_], dict(kw), None)
+            outs = ai.explore(thunk)
+            ok = bool(outs) and all(o.kind == 'raise' and o.exc in ('ValueError', 'TypeError', 'KeySignatureError') for o in outs)
+            ctx.require(ok, 'R09.9', f'MetaMessage({type_!r}, {", ".join(f"{k}={v!r}" for k, v in kw.items())}) after {blabel}', w,
+                        f'after {blabel} (which {"was refused" if marks and marks[-1] != "returned" else "returned"}), the out-of-domain value is '
+                        f'{"accepted" if any(o.kind == "return" for o in outs) else "not refused cleanly"}: {str(outs)[:200]}',
+                        construct=f'{bmm.qname}::checks-depend-on-history')
+    ctx.floor('R09.9', n, 35)
+    for q in ai.inlined:
+        ctx.functions.add(q)
+
+
+RULES = [('R09.9', r09_after_refusal), ('R09.8', r09_default_charset), ('R09-vlq', r09_vlq), ('R09.7', r09_codec), ('R09-registry', r09_registry), ('R09.3', r09_3), ('R09.1', r09_1), ('R09-tables', r09_tables), ('R09.2', r09_2),
          ('R09.4', r09_4), ('R09.5', r09_5), ('R09.6', r09_6)]
